@@ -19,13 +19,38 @@ theorem isNd_10 : isNd 10 = false := by decide +kernel
 
 /-! ### `dec` -/
 
+theorem decAux_fuel : ∀ (n f g : Nat), n < f → n < g → decAux f n = decAux g n := by
+  intro n
+  induction n using Nat.strongRecOn with
+  | _ n ih =>
+    intro f g hf hg
+    cases f with
+    | zero => omega
+    | succ f =>
+      cases g with
+      | zero => omega
+      | succ g =>
+        simp only [decAux]
+        split
+        · rfl
+        · rw [ih (n / 10) (by omega) f g (by omega) (by omega)]
+
+/-- the defining equation of decimal rendering: the fuel suffices -/
+theorem dec_eq (n : Nat) : dec n = if n < 10 then [48 + n] else dec (n / 10) ++ [48 + n % 10] := by
+  have h : decAux (n + 1) n = if n < 10 then [48 + n] else decAux n (n / 10) ++ [48 + n % 10] := rfl
+  show decAux (n + 1) n = if n < 10 then [48 + n] else decAux (n / 10 + 1) (n / 10) ++ [48 + n % 10]
+  rw [h]
+  split
+  · rfl
+  · rw [decAux_fuel (n / 10) n (n / 10 + 1) (by omega) (by omega)]
+
 theorem dec_ne_nil (n : Nat) : dec n ≠ [] := by
-  unfold dec; split <;> simp
+  rw [dec_eq]; split <;> simp
 
 theorem dec_ascii (n : Nat) : ∀ c ∈ dec n, 48 ≤ c ∧ c ≤ 57 := by
   induction n using Nat.strongRecOn with
   | _ n ih =>
-    unfold dec
+    rw [dec_eq]
     split
     · intro c hc; simp at hc; omega
     · intro c hc
@@ -51,7 +76,7 @@ theorem undecAux_append (a : Nat) (xs ys : Str) :
 theorem undecAux_dec (n : Nat) : undecAux 0 (dec n) = n := by
   induction n using Nat.strongRecOn with
   | _ n ih =>
-    unfold dec
+    rw [dec_eq]
     split
     · show 0 * 10 + (48 + n - 48) = n
       omega
